@@ -94,7 +94,7 @@ def generate(rng, tier):
     ops.sort(key=lambda o: o["t"])
     faults = {"max_delay_us": rng.choice([0, 2000, 100000]), "loop_delay_us": rng.choice([0, 1000]),
               "dup_p": rng.choice([0.0, 0.2]), "grid_p": 0.0}
-    return {"ops": ops, "faults": faults, "end": round(t + 4.0, 3)}
+    return {"timer_slop_us": rng.choice([0, 0, 0.1]), "ops": ops, "faults": faults, "end": round(t + 4.0, 3)}
 
 
 def _recase(rng, name):
@@ -212,7 +212,8 @@ def nsec_key(r):
 
 def execute(scenario, seed, overrides=None):
     out = runner.Outcome()
-    w = World(seed, FaultConfig(**scenario.get("faults", {})), overrides)
+    w = World(seed, FaultConfig(**scenario.get("faults", {})), overrides,
+              timer_slop=scenario.get("timer_slop_us", 0) / 1e6)
     try:
         drv = Driver(w, scenario)
         reg = ModelRegistry()
